@@ -79,6 +79,6 @@ PROP = dict(
 )
 META = dict(
     technique="Lean 4 lockset theorem (generic over thread counts and schedules) + kernel-evaluated discipline check over lock facts regenerated from the source by a go/ast translator; Go race detector validates the extraction both ways and is the oracle on the real code",
-    text="PARTIAL (proof about an extracted model). Tcell.Props.C10 proves lockset_sound (all accesses to a field made holding the one exclusive mutex ⇒ no reachable race, any number of threads, any schedule), clean_fields_race_free (instantiated on the regenerated facts for every field no flagged fact mentions), blocks_contiguous (lock-guarded emissions ⇒ each critical section's output is one contiguous run of the tty stream) and show_block_shape; flagged_exact/discipline_partial make the kernel recompute the list of violating facts. On the pinned tree the discipline FAILS for Beep, SetSize, CanDisplay, the tail of disengage (Suspend/Fini) and several simscreen methods; engine `race` reproduces each of them under `go build -race` with input/resize traffic (and reports any race the facts do not predict), and checks that every tty write during concurrent Sync+X is a whole block.",
+    text="PARTIAL (proof about an extracted model). Tcell.Props.C10 proves lockset_sound (all accesses to a field made holding the one exclusive mutex ⇒ no reachable race, any number of threads, any schedule), clean_fields_race_free (instantiated on the regenerated facts for every field no flagged fact mentions), blocks_contiguous (lock-guarded emissions ⇒ each critical section's output is one contiguous run of the tty stream) and show_block_shape; flagged_exact/discipline_partial make the kernel recompute the list of violating facts; discipline_except_disengage: on the current tree every fact of every entry point other than tscreen/Fini and tscreen/Suspend respects the discipline (flagged_only_disengage: the regenerated flagged list is exactly the unlocked tail of disengage — open findings C10-disengage-tail / C10-loops-overlap; Beep, SetSize, CanDisplay and the simscreen methods were repaired by da67ed6 / 5249fc9). Engine `race` reproduces each flagged entry point under `go build -race` with input/resize traffic (and reports any race the facts do not predict), and checks that every tty write during concurrent Sync+X is a whole block.",
     note="Partial: Go's memory model is axiomatised in the thread semantics, the facts are as good as the translator (cross-checked by the race detector in both directions, sampled schedules). Trusted: Lean kernel, translator, race detector.",
 )
